@@ -47,10 +47,27 @@ def mirror_rule(run, rid, funcs, pairs, text):
                 run.note(rid, 'one-sided by design in %s: %s' % (f.short, tr), f, s)
                 continue
             bad.append((s, s, 0.0, [('missing', ' '.join(sw), '')]))
+        # parallel assignment  a_x, e_x = va, ve : the two values must mirror each other like the two targets do
+        for s in stmts_all:
+            if not (isinstance(s, ast.Assign) and len(s.targets) == 1 and isinstance(s.targets[0], (ast.Tuple, ast.List))
+                    and isinstance(s.value, (ast.Tuple, ast.List)) and len(s.targets[0].elts) == len(s.value.elts)):
+                continue
+            ts = [[mirror._norm(t) for t in mirror.tokens(t)] for t in s.targets[0].elts]
+            vs = [[mirror._norm(t) for t in mirror.tokens(v)] for v in s.value.elts]
+            for i in range(len(ts)):
+                for j in range(i + 1, len(ts)):
+                    if mirror.swapped(ts[i], pairs) == ts[j] and ts[i] != ts[j] and mirror.swapped(vs[i], pairs) != vs[j]:
+                        bad.append((s, s, 0.0, [('parallel', '%s = %s' % (' '.join(ts[j]), ' '.join(mirror.swapped(vs[i], pairs))),
+                                                 '%s = %s' % (' '.join(ts[j]), ' '.join(vs[j])))]))
         if not bad:
             run.ob(rid, '%s::%s' % (f.rel, f.short), True,
                    'every near-mirror statement pair is an exact mirror under the role swap (%d statements compared)' % nb, fn=f)
         for s1, s2, r, d in bad:
+            if s1 is s2 and d[0][0] == 'parallel':
+                run.ob(rid, '%s::%s::%s' % (f.rel, f.short, head(s1)[:70]), False,
+                       'line %d assigns the two sides in parallel but not as mirror images: `%s` where the role swap gives `%s`'
+                       % (s1.lineno, d[0][2][:70], d[0][1][:70]), fn=f, node=s1)
+                continue
             if s1 is s2:
                 run.ob(rid, '%s::%s::%s' % (f.rel, f.short, head(s1)[:70]), False,
                        'line %d transforms one side (`%s`) and the function has no mirror statement `%s` for the other side'
